@@ -141,6 +141,8 @@ Definition D_VALUE := 6.    (* async_lock::RwLock of the value *)
 Definition D_WAKERS := 7.
 Definition S_SUBS := 8.     (* Arc<RwLock<SubscriberSet>> of the signal *)
 Definition S_VALUE := 9.
+Definition T_SUBS := 10.    (* a second signal t, read by the effect *)
+Definition T_VALUE := 11.
 
 (** documented order of computed/inner.rs ("value must always be acquired after the
     reactivity lock"), extended: a subscriber's lock before the locks of its sources *)
@@ -219,9 +221,34 @@ Definition e_rerun_sd : list ev :=
   ++ hold W E_INNER ([Yld] ++ touch W S_SUBS ++ [Yld] ++ touch W D_INNER)
   ++ s_get E_INNER ++ d_get E_INNER.
 
+(** harness scenario 11: signal s --> memo m --> effect e, e also reads signal t.
+    Writer: s.set = value.write(); clone subscribers; m.mark_dirty = reactivity.write() ·
+    "memo:marked_dirty" · mark_subscribers_check (HEAD: clone under read, release) ·
+    "effect:mark_check" (entry of the subscriber callback) · e.mark_check *)
+Definition s_set_me : list ev :=
+  touch W S_VALUE ++ touch R S_SUBS ++ touch W M_REACT ++ [Yld] ++ touch R M_REACT ++ [Yld] ++ e_mark.
+(** the same with the subscribers walked under reactivity.read() (one site of the memo fix reverted) *)
+Definition s_set_me_prefix : list ev :=
+  touch W S_VALUE ++ touch R S_SUBS ++ touch W M_REACT ++ [Yld] ++ hold R M_REACT ([Yld] ++ e_mark).
+(** m pulled by the effect (m's only source is s, its only subscriber e) *)
+Definition m_update_e : list ev :=
+  touch R M_REACT ++ touch W M_VALUE ++ touch R M_REACT
+  ++ hold W M_REACT (touch W S_SUBS)
+  ++ s_get M_REACT
+  ++ hold W M_REACT (touch W M_VALUE).
+Definition t_get (sub : nat) : list ev := touch W T_SUBS ++ touch W sub ++ touch R T_VALUE.
+(** effect re-run: clear_sources holds the effect's lock while unsubscribing from m and t
+    ("sources:remove_sub" before each), then the function reads m and t *)
+Definition e_rerun_mt : list ev :=
+  touch W E_INNER
+  ++ hold W E_INNER ([Yld] ++ touch W M_REACT ++ [Yld] ++ touch W T_SUBS)
+  ++ touch W M_REACT ++ touch W E_INNER ++ m_update_e ++ touch R M_VALUE
+  ++ t_get E_INNER.
+
 Definition head_ops : list (list ev) :=
   [e_mark; m2_mark; m_mark; s_set; m_update; m2_update; m_read E_INNER; m2_read E_INNER;
-   e_rerun; e_rerun_sd; d_complete; d_await; s_get E_INNER; d_get E_INNER].
+   e_rerun; e_rerun_sd; d_complete; d_await; s_get E_INNER; d_get E_INNER;
+   s_set_me; m_update_e; e_rerun_mt; t_get E_INNER].
 
 (** F-C02-b (before the memo commit): an ImmediateEffect subscribed to m reacts inside
     mark_check on the same thread: it re-runs, i.e. unsubscribes from m under its own lock *)
